@@ -75,7 +75,7 @@ fn main() {
         "infl" => infl::main(&args),
         "codec" => codec::main(&args),
         "tomb" => tomb::main(&args),
-        "hyb" => hyb::main(&args),
+        "hyb" | "blk" => hyb::main(&args),
         "lay" => lay::main(&args),
         _ => {
             eprintln!("unknown domain {domain:?}");
